@@ -850,9 +850,15 @@ impl<B> Flow<B, Redirect> {
             RedirectAuthHeaders::SameHost => can_redirect_auth_header(request.uri(), &uri),
         };
 
+        // A Host header on the original request names the original authority only.
+        let keep_host_header = request.uri().authority() == uri.authority();
+
         // Override with the new uri
         request.set_uri(uri);
 
+        if !keep_host_header {
+            request.unset_header("host")?;
+        }
         if !keep_auth_header {
             request.unset_header("authorization")?;
         }
